@@ -120,6 +120,105 @@ Proof.
   - split; [exact H1|]. split; [apply Habs; reflexivity|reflexivity].
 Qed.
 
+(* ---------- a legal flush ---------- *)
+
+Lemma seq_below_sound r t : seq_below r t = true -> forall e e', In e r -> In e' t -> eseq e < eseq e'.
+Proof.
+  unfold seq_below. rewrite forallb_forall. intros H e e' He He'. specialize (H e He). rewrite forallb_forall in H.
+  apply N.ltb_lt. exact (H e' He').
+Qed.
+Lemma sepb_sound cs : sepb cs = true -> sep cs.
+Proof.
+  induction cs as [|x r IH]; cbn; [auto|]. intros H. apply andb_true_iff in H as [H1 H2]. split; [|auto].
+  intros y e e' Hy He He'. rewrite forallb_forall in H1. eapply seq_below_sound; eauto.
+Qed.
+Lemma entry_in_sound e ts : entry_in e ts = true -> exists t, In t ts /\ In e t.
+Proof.
+  unfold entry_in. intros H. apply existsb_exists in H as (t & Ht & H). apply existsb_exists in H as (x & Hx & E).
+  apply entry_eqb_eq in E. subst x. exists t. auto.
+Qed.
+
+Lemma f2o_inv snap rest outs ll sq c r :
+  rest <> [] -> Inv (snap ++ rest) ll sq (FSwap snap) c r ->
+  forallb (fun t => nonemptyb t && sortedb t) outs = true ->
+  merge_all outs = merge_all snap ->
+  (forall t e, In t outs -> In e t -> exists t0, In t0 snap /\ In e t0) ->
+  sep (hd [] ll ++ outs ++ rest) ->
+  Inv rest (add_l0 outs ll) sq FIdle c r /\ view (vlay (add_l0 outs ll) rest) = view (vlay ll (snap ++ rest)).
+Proof.
+  intros Hrest HI Hout Hmerge Hsrc Hsep. destruct HI as [i_ll0 i_len0 i_mts0 i_real0 i_sealed0 i_seq0 i_ft0 i_ct0 i_rd0].
+  pose proof (len_ne _ i_len0) as Hne.
+  set (M := snap ++ rest) in *. set (M' := outs ++ rest).
+  assert (Houts : forall t, In t outs -> t <> [] /\ sorted t).
+  { intros t Ht. rewrite forallb_forall in Hout. specialize (Hout t Ht). apply andb_true_iff in Hout as [H1 H2].
+    split; [destruct t; [discriminate|discriminate]|apply sortedb_sorted; exact H2]. }
+  assert (HinM : forall t, In t snap -> In t M) by (intros t Ht; apply in_or_app; left; exact Ht).
+  assert (HrestM : forall t, In t rest -> In t M) by (intros t Ht; apply in_or_app; right; exact Ht).
+  assert (Hlay : vlay (add_l0 outs ll) rest = vlay ll M') by (apply vlay_add_l0; exact Hne).
+  (* the new reader layout is valid *)
+  assert (Hv' : LLInv (vlay ll M')).
+  { apply (LLInv_new_mem ll M M' Hne i_ll0).
+    - intros t Ht. apply in_app_or in Ht as [Ht|Ht]; [apply Houts; exact Ht|].
+      apply (v_sorted _ i_ll0 (hd [] ll ++ M)); [left; reflexivity|apply in_or_app; right; apply HrestM; exact Ht].
+    - exact Hsep.
+    - intros t e Ht He. left. apply in_app_or in Ht as [Ht|Ht].
+      + destruct (Hsrc t e Ht He) as (t0 & H1 & H2). exists t0. split; [apply in_or_app; right; apply HinM; exact H1|exact H2].
+      + exists t. split; [apply in_or_app; right; apply HrestM; exact Ht|exact He]. }
+  (* entries: nothing new, nothing lost that is not dominated *)
+  assert (Hsub : forall e, ents (vlay ll M') e -> ents (vlay ll M) e).
+  { intros e He. apply ents_vlay in He; [|exact Hne]. apply ents_vlay; [exact Hne|]. destruct He as [He|(t & Ht & He)]; [left; exact He|right].
+    apply in_app_or in Ht as [Ht|Ht].
+    - destruct (Hsrc t e Ht He) as (t0 & H1 & H2). exists t0. auto.
+    - exists t. auto. }
+  assert (Hview : view (vlay ll M') = view (vlay ll M)).
+  { eapply Mx_same; [apply ents_view|apply ents_view| | |].
+    - intros e e' He He'. apply (LLInv_uniq _ i_ll0); [destruct He as [He|He]|destruct He' as [He'|He']]; auto.
+    - intros e He. exists e. repeat split; [apply Hsub; exact He|lia].
+    - intros e He. apply ents_vlay in He; [|exact Hne]. destruct He as [He|(t & Ht & He)].
+      + exists e. repeat split; [apply ents_vlay; [exact Hne|left; exact He]|lia].
+      + apply in_app_or in Ht as [Ht|Ht].
+        * destruct (Mx_merge_all snap) as (_ & _ & H3). destruct (H3 e (ex_intro _ t (conj Ht He))) as (m & Hm & Hle).
+          rewrite <- Hmerge in Hm. apply tbl_get_some in Hm as [Hm1 Hm2].
+          destruct (Mx_merge_all outs) as (_ & H2 & _). destruct (H2 m Hm1) as (o & Ho & Hmo).
+          exists m. repeat split; [|exact Hm2|exact Hle]. apply ents_vlay; [exact Hne|right]. exists o. split; [apply in_or_app; left; exact Ho|exact Hmo].
+        * exists e. repeat split; [|lia]. apply ents_vlay; [exact Hne|right]. exists t. split; [apply in_or_app; right; exact Ht|exact He]. }
+  split; [|rewrite Hlay; exact Hview]. constructor.
+  - rewrite Hlay. exact Hv'.
+  - destruct ll; [congruence|exact i_len0].
+  - exact Hrest.
+  - intros l t Hl Ht. destruct ll as [|l0 ll0]; [congruence|]. cbn in Hl. destruct Hl as [<-|Hl].
+    + apply in_app_or in Ht as [Ht|Ht]; [apply (i_real0 l0); [left; reflexivity|exact Ht]|apply Houts; exact Ht].
+    + apply (i_real0 l); [right; exact Hl|exact Ht].
+  - intros t Ht. apply i_sealed0. apply removelast_app_in2; assumption.
+  - intros e He. rewrite Hlay in He. apply i_seq0. apply Hsub. exact He.
+  - intros s [=].
+  - intros cs Hc. rewrite Hlay. destruct (i_ct0 cs Hc) as [Hg Hd].
+    assert (Hd' : forall t, In t M' -> ~ In t (cs_rem cs)).
+    { intros t Ht HR. apply in_app_or in Ht as [Ht|Ht]; [|exact (Hd t (HrestM _ Ht) HR)].
+      destruct (Houts t Ht) as [Hnil _]. destruct t as [|e t]; [congruence|].
+      destruct (Hsrc _ e Ht (or_introl eq_refl)) as (t0 & Ht0 & He0).
+      destruct (g_sub _ _ Hg _ HR) as (j & l & _ & Hl & Hin). destruct j as [|j].
+      - rewrite vlay_nth_0 in Hl by exact Hne. injection Hl as <-. apply in_app_or in Hin as [Hin|Hin]; [|exact (Hd _ Hin HR)].
+        pose proof (v_sep _ i_ll0 _ (vlay_nth_0 ll M Hne)) as Hs. apply sep_app in Hs as (_ & _ & Hs).
+        specialize (Hs (e :: t) t0 e e Hin (HinM _ Ht0) (or_introl eq_refl) He0). lia.
+      - pose proof (v_ord _ i_ll0 0%nat (S j) _ l t0 (e :: t) e e ltac:(lia) (vlay_nth_0 ll M Hne) Hl
+                      ltac:(apply in_or_app; right; apply HinM; exact Ht0) Hin He0 (or_introl eq_refl) eq_refl). lia. }
+    split; [|intros t Ht; apply Hd'; apply in_or_app; right; exact Ht].
+    apply (good_cs_new_mem ll M M' cs Hne Hg Hd Hd').
+    intros r0 t e0 e' Hr HrR Ht He0 He'.
+    assert (Hold : forall t0, In t0 M -> In e' t0 -> eseq e0 < eseq e').
+    { intros t0 Ht0 He't0. apply (g_l0 _ _ Hg (hd [] ll ++ M) r0 t0 e0 e'); [apply vlay_nth_0; exact Hne|apply in_or_app; left; exact Hr|exact HrR|apply in_or_app; right; exact Ht0|exact (Hd _ Ht0)|exact He0|exact He't0]. }
+    apply in_app_or in Ht as [Ht|Ht].
+    + destruct (Hsrc t e' Ht He') as (t0 & H1 & H2). apply (Hold t0); [apply HinM; exact H1|exact H2].
+    + apply (Hold t); [apply HrestM; exact Ht|exact He'].
+  - destruct r as [|k [e|]|p mres]; cbn [rd_inv] in *.
+    + exact I.
+    + rewrite Hlay, Hview. exact i_rd0.
+    + intros t e Ht. apply i_rd0. apply HrestM. exact Ht.
+    + rewrite Hlay, Hview. destruct i_rd0 as (H1 & H2 & H3). split; [exact H1|]. split; [exact H2|].
+      intros k m Hp Hg. destruct (H3 k m Hp Hg) as [H|H]; [left; exact H|right; apply ents_add_l0; exact H].
+Qed.
+
 Lemma set_ct_inv st n c' :
   DBInv st -> (forall cs, c' = CSwap cs -> good_cs (vll st) cs /\ forall t, In t (mts st) -> ~ In t (cs_rem cs)) ->
   DBInv (set_ct st n c') /\ absm (set_ct st n c') = absm st /\ rd (set_ct st n c') = rd st.
@@ -167,6 +266,22 @@ Proof.
     { destruct (ct st); [destruct (cpend st); [discriminate|]| |discriminate]; injection Hs as <- <-; (apply set_ct_inv; [exact HI|intros cs [=]]). }
     destruct Hres as (H1 & H2 & H3). rewrite H3. cbn. auto.
   - change (step dummy_cfg st AC2) with (step okcfg st AC2) in Hs. exact (step_ok _ _ _ _ _ Hok HI Hs).
+  - (* RF2o *)
+    destruct st as [M ms wb ll sq fp f cp c mc r]. cbn [ft mts msize walb lv seqn fpend cpend ct mcl rd] in Hs.
+    destruct f as [|snap]; [discriminate|]. cbn [negb orb] in Hs.
+    destruct (flush_okb (mkDb M ms wb ll sq fp (FSwap snap) cp c mc r) snap outs) eqn:E; [|discriminate]. injection Hs as <- <-.
+    unfold DBInv, absm, vll in *. cbn [mts lv seqn ft ct rd fpend cpend msize walb mcl] in *.
+    destruct (i_ft _ _ _ _ _ _ HI snap eq_refl) as (rest & HM & Hrest). subst M.
+    assert (Hsk : skipn (length snap) (snap ++ rest) = rest) by (rewrite skipn_app, Nat.sub_diag, skipn_all; reflexivity).
+    unfold flush_okb in E. cbn [lv mts] in E. rewrite Hsk in E.
+    apply andb_true_iff in E as [E E4]. apply andb_true_iff in E as [E E3]. apply andb_true_iff in E as [E1 E2].
+    rewrite Hsk.
+    destruct (f2o_inv snap rest outs ll sq c r Hrest HI E1) as [J1 J2].
+    + apply table_eqb_eq. exact E2.
+    + intros t e Ht He. rewrite forallb_forall in E3. specialize (E3 t Ht). rewrite forallb_forall in E3. specialize (E3 e He).
+      apply entry_in_sound in E3. exact E3.
+    + apply sepb_sound. exact E4.
+    + split; [exact J1|]. rewrite J2. split; [reflexivity|]. split; [exact I|reflexivity].
 Qed.
 
 Lemma rinit_inv n : (2 <= n)%nat -> DBInv (rinit n) /\ absm (rinit n) = [].
